@@ -410,18 +410,32 @@ FIXTURES = {"counted": Counted, "lockable": Lockable, "branch": BranchFx, "repo"
 
 
 def make_base(workdir):
-    """An on-disk 2a standalone tree and a logging transport world rooted above it."""
-    from breezy import controldir, lockdir
+    """A scratch root with a logging transport world above it; the on-disk objects are created on first use."""
+    from breezy import lockdir
     lockdir._DEFAULT_TIMEOUT_SECONDS = 0
     root = os.path.join(workdir, "c28root")
     os.makedirs(root)
-    fmt = controldir.format_registry.make_controldir("2a")
-    controldir.ControlDir.create_standalone_workingtree(os.path.join(root, "t"), format=fmt)
-    os.mkdir(os.path.join(root, "k"))
-    controldir.format_registry.make_controldir("knit").initialize(os.path.join(root, "k")).create_repository()
     world = sched.World("file://" + root + "/", significant=lambda op, path: op == "rename")
     world.transport()        # registers the decorator
-    return {"root": root, "world": world}
+    return {"root": root, "world": world, "made": set()}
+
+
+DISK_OBJECT = {"branch": "t", "repo": "t", "tree": "t", "knitrepo": "k"}
+
+
+def ensure_object(base, w):
+    """The 2a standalone tree (t) / the knit repository (k) the wrapper lives in."""
+    from breezy import controldir
+    what = DISK_OBJECT.get(w)
+    if what is None or what in base["made"]:
+        return
+    if what == "t":
+        fmt = controldir.format_registry.make_controldir("2a")
+        controldir.ControlDir.create_standalone_workingtree(os.path.join(base["root"], "t"), format=fmt)
+    else:
+        os.mkdir(os.path.join(base["root"], "k"))
+        controldir.format_registry.make_controldir("knit").initialize(os.path.join(base["root"], "k")).create_repository()
+    base["made"].add(what)
 
 
 def execute(sub, base, w, ops):
@@ -442,31 +456,30 @@ def execute(sub, base, w, ops):
     return {"w": w, "ops": list(ops), "obs": obs}
 
 
-NEEDS_BASE = {"lockable", "branch", "repo", "knitrepo", "tree"}
-
-
 def _replay_chunk(sub, chunk):
-    """Workers replay their call sequences; the on-disk fixture is built on first use.  If the tree under test is so
-    broken that the fixture cannot be built, the sequences needing it are skipped and reported (the remaining wrappers
-    are still judged; run() turns skipped sequences without any violation into a machinery failure)."""
-    base, base_error = None, None
-    rows, skipped = [], 0
+    """Workers replay their call sequences; on-disk objects are built on first use.  If the tree under test is so
+    broken that an object cannot even be created, the sequences needing it are skipped and reported (the remaining
+    wrappers are still judged; run() turns skipped sequences without any violation into a machinery failure)."""
+    base = make_base(sub.workdir)
+    rows, skipped, errors = [], 0, {}
     try:
-        for w, ops in sorted(chunk, key=lambda j: j[0] in NEEDS_BASE):
-            if w in NEEDS_BASE and base is None and base_error is None:
+        for w, ops in chunk:
+            if w not in errors:
                 try:
-                    base = make_base(sub.workdir)
+                    ensure_object(base, w)
                 except Exception as e:
-                    base_error = "%s: %s" % (type(e).__name__, str(e)[:200])
-            if w in NEEDS_BASE and base is None:
+                    errors[w] = "%s: %s: %s" % (w, type(e).__name__, str(e)[:160])
+                    for other in DISK_OBJECT:
+                        if DISK_OBJECT[other] == DISK_OBJECT[w]:
+                            errors.setdefault(other, errors[w])
+            if w in errors:
                 skipped += 1
                 continue
             rows.append(execute(sub, base, w, ops))
             sub.count(1)
     finally:
-        if base is not None:
-            base["world"].close()
-    sub.cov.setdefault("_collect", []).append({"rows": rows, "skipped": skipped, "error": base_error})
+        base["world"].close()
+    sub.cov.setdefault("_collect", []).append({"rows": rows, "skipped": skipped, "error": "; ".join(sorted(set(errors.values()))) or None})
 
 
 def random_ops(rng, w, n):
@@ -523,27 +536,24 @@ def run(ctx):
     jobs = []
     graphs = {}
     # E1: per wrapper family the state graph of all call sequences <= 8 (invariants and action properties checked on it)
-    for w in ("counted", "repo", "tree"):
-        nodes, edges, inits, res = tlc.graph(ctx, "CountedLockMC", cfg_text=cfg(w, maxcalls, False), workers=2,
+    # "branch" = the token-passing step function of counted / lockable / knitrepo plus bmode = mode (its repository's lock):
+    # one graph serves the four of them (same edges, the others' bmode is constantly "none")
+    for w in ("branch", "repo", "tree"):
+        nodes, edges, inits, res = tlc.graph(ctx, "CountedLockMC", cfg_text=cfg(w, maxcalls, False), workers=4,
                                              label="state graph + invariants + action properties: %s" % w)
         graphs[w] = (nodes, edges, inits)
-    # same step function as "counted" (token passing); "branch" only adds bmode = mode (its repository's lock)
-    graphs["lockable"] = graphs["branch"] = graphs["knitrepo"] = graphs["counted"]
+    graphs["counted"] = graphs["lockable"] = graphs["knitrepo"] = graphs["branch"]
     if not ctx.quick:
         # the same with the call sequence kept in the state: every sequence is explored separately
         for w in ("counted", "branch", "repo", "tree"):
             tlc.check(ctx, "CountedLockMC", cfg_text=cfg(w, maxcalls, True), label="all call sequences <= %d: %s" % (maxcalls, w))
-    else:
-        # quick: the branch variant (bmode = mode) is checked on its merged graph only
-        tlc.check(ctx, "CountedLockMC", cfg_text=cfg("branch", maxcalls, False), workers=2,
-                  label="invariants + action properties: branch")
-    res = tlc.run(ctx, "CountedLockMC", cfg_text=cfg("counted", 6, False, WITNESSES, ()), extra=("-continue",),
+    res = tlc.run(ctx, "CountedLockMC", cfg_text=cfg("counted", 4, False, WITNESSES, ()), extra=("-continue",),
                   allow_violation=True, workers=2)
     found = set(re.findall(r"Invariant (\w+) is violated", res["output"]))
     if set(WITNESSES) - found:
         ctx.machinery("vacuity guard: witnesses not reached: %s" % sorted(set(WITNESSES) - found))
     ctx.add_tlc(res, "witnesses")
-    cap = 500 if ctx.quick else None
+    cap = 300 if ctx.quick else None
     for w in WRAPPERS:
         nodes, edges, inits = graphs[w]
         paths = list(tlc.transition_cover(nodes, edges, inits, rng=ctx.rng))
